@@ -241,8 +241,10 @@ def run(repo, chk):
            "the emitter resets the slot to ABSENT, pushes the event (subscribers run synchronously) and answers with whatever override() stored, ABSENT meaning 'decline'")
     for m, expr in (("override", "setter(data)"), ("koverride", "setter(**data)")):
         fi = repo.func(f"probe.OverridableProbe.{m}")
-        ok = any(isinstance(n, ast.Assign) and norm(n.targets[0]) == "self._root._value" and norm(n.value) == expr for n in ast.walk(fi.node)) and \
-            facts_of(fi).has("return self.subscribe(_override)", exactly=[])
+        subs = [r.value.args[0] for r in returns_of(fi.node) if isinstance(r.value, ast.Call) and norm(r.value.func) == "self.subscribe" and len(r.value.args) == 1]
+        inner = [d for d in ast.walk(fi.node) if isinstance(d, ast.FunctionDef) and d is not fi.node and len(subs) == 1 and is_name(subs[0], d.name)]
+        ok = len(returns_of(fi.node)) == 1 and len(inner) == 1 and len(inner[0].args.args) == 1 and \
+            [norm(n) for n in inner[0].body if not (isinstance(n, ast.Expr) and isinstance(n.value, ast.Constant))] == [f"self._root._value = {expr.replace('data', inner[0].args.args[0].arg)}"]
         chk.ob("R04.6", f"probe.OverridableProbe.{m}:stores-into-root-slot", ok, fi.where, f"{m}() subscribes a function that stores {expr} into the root probe's slot")
     om = repo.func("probe.OverridableProbe._make_rule")
     chk.ob("R04.6", "probe.OverridableProbe._make_rule:emitter-is-the-intercept", facts_of(om).mentions("Immediate(sel, intercept=self._make_emitter(sel), pass_info=True)"), om.where,
